@@ -1288,9 +1288,11 @@ def run_life(scripts, race=False, watchdog=3000, cmd="life-run", procs=8, extra=
         if race:
             env["GORACE"] = "log_path=%s halt_on_error=0 exitcode=0" % racelog
         pending = []
+        crashes = [0]
         for j in jobs:
+            j["ef"] = j["rf"] + ".err"
             j["p"] = subprocess.Popen([drv, cmd, "-scripts", j["pf"], "-out", j["rf"], "-seed", str(SEED), "-watchdog", str(watchdog)] + list(extra),
-                                      cwd=run, stdout=subprocess.DEVNULL, stderr=subprocess.DEVNULL, env=env)
+                                      cwd=run, stdout=subprocess.DEVNULL, stderr=open(j["ef"], "w"), env=env)
             pending.append(j)
         import time as _t
         t0 = _t.time()
@@ -1310,11 +1312,32 @@ def run_life(scripts, race=False, watchdog=3000, cmd="life-run", procs=8, extra=
                         for s_ in rest:
                             fh.write(json.dumps(s_) + "\n")
                     j["p"] = subprocess.Popen([drv, cmd, "-scripts", j["pf"], "-out", j["rf"], "-seed", str(SEED), "-watchdog", str(watchdog)] + list(extra),
-                                              cwd=run, stdout=subprocess.DEVNULL, stderr=subprocess.DEVNULL, env=env)
+                                              cwd=run, stdout=subprocess.DEVNULL, stderr=open(j["ef"], "a"), env=env)
                 elif rc in (0, 3):
                     pending.remove(j)
                 else:
-                    raise Inconclusive("%s died rc=%s" % (cmd, rc))
+                    # the process died: a panic on a search / timer goroutine cannot be recovered by the driver. When the dying
+                    # goroutine was inside the engine this is the observation for the script that was running; the rest goes on
+                    err = open(j["ef"], errors="replace").read()[-8000:] if os.path.exists(j["ef"]) else ""
+                    first = err.split("goroutine ", 2)[1] if "goroutine " in err else ""
+                    rest = [s_ for s_ in (json.loads(l) for l in open(j["pf"])) if s_["id"] not in {d["id"] for d in done}]
+                    crashes[0] += 1
+                    if not rest or "/internal/" not in first or "WARNING: DATA RACE" in first or crashes[0] > 30:
+                        raise Inconclusive("%s died rc=%s: %s" % (cmd, rc, err[-300:]))
+                    what = ([l for l in err.splitlines() if l.startswith(("panic:", "fatal error:"))] or ["?"])[0][:300]
+                    frames = [l.strip() for l in first.splitlines() if "/internal/" in l][:4]
+                    with open(j["rf"], "a") as fh:
+                        fh.write(json.dumps({"id": rest[0]["id"], "name": rest[0].get("name", ""), "events": [], "hang": "", "results": 0, "accepted": 0,
+                                             "steps": len(rest[0].get("steps", [])), "matched": 0, "diverged": None, "early": [], "stuck": [],
+                                             "panic": "CRASH: the engine brought the process down: %s @ %s" % (what, " | ".join(frames))}) + "\n")
+                    with open(j["pf"], "w") as fh:
+                        for s_ in rest[1:]:
+                            fh.write(json.dumps(s_) + "\n")
+                    if rest[1:]:
+                        j["p"] = subprocess.Popen([drv, cmd, "-scripts", j["pf"], "-out", j["rf"], "-seed", str(SEED), "-watchdog", str(watchdog)] + list(extra),
+                                                  cwd=run, stdout=subprocess.DEVNULL, stderr=open(j["ef"], "a"), env=env)
+                    else:
+                        pending.remove(j)
         for j in jobs:
             if os.path.exists(j["rf"]):
                 out += [json.loads(l) for l in open(j["rf"])]
